@@ -32,7 +32,7 @@ impl RJob {
 
 pub fn jobs(ctx: &Ctx) -> Vec<RJob> {
     let versions: Vec<usize> = ctx.tier.pick(vec![1, 2, 6, 7, 14, 21, 27, 40], (1..=40).collect());
-    let per = ctx.tier.pick(150, ctx.scale(600));
+    let per = ctx.tier.pick(180, ctx.scale(1500));
     let mut out = Vec::new();
     let mut k = 0u64;
     for &v in &versions {
